@@ -520,6 +520,20 @@ pub fn run_encode(ctx: &mut Ctx, v: &J) {
             }
         }
     }
+    // extra parameters all present, in their given relative order
+    if let Some(extras) = ex["extras"].as_array() {
+        if !extras.is_empty() && item["t"] == "map" {
+            let want_keys: Vec<String> = extras.iter().map(|k| k.to_string()).collect();
+            let got: Vec<String> = item["m"]
+                .as_array()
+                .map(|a| a.iter().map(|e| e[0].to_string()).filter(|k| want_keys.contains(k)).collect())
+                .unwrap_or_default();
+            if got != want_keys {
+                ctx.mismatch(&prop, v, "extra-parameters-reordered-or-lost", json!({"bytes": hex(&bytes), "want": want_keys, "got": got}));
+                return;
+            }
+        }
+    }
     if let Some(want) = ex["bytes"].get(0) {
         if !ex["modorder"].as_bool().unwrap_or(false) && *want != jbytes(&bytes) {
             ctx.mismatch(&prop, v, "encoded-bytes-differ", json!({"bytes": hex(&bytes)}));
